@@ -257,6 +257,14 @@ class ULocked(Exception):
 MESSAGE_OPTIONAL = {'ULocked'}
 
 
+class UDownload(ConnectionError):
+  """An OSError-family class that keeps three items in args."""
+  def __init__(self, url, status, reason):
+    super().__init__(url, status, reason)
+    self.args = (url, status, reason)
+    self.url = url
+
+
 class UKwOnly(Exception):
   def __init__(self, *, code):
     super().__init__('code=%s' % code)
@@ -278,6 +286,8 @@ USER = {
     'UDescr': lambda: UDescr('quota', 100, 'acme'),
     'UFinal': lambda: UFinal('x'), 'UReadOnlyArgs': lambda: UReadOnlyArgs('y'), 'UValidatingNew': lambda: UValidatingNew(404, 'nf'),
     'GroupArgsReassigned': lambda: _regroup(),
+    'UDownload': lambda: UDownload('http://host/file', 503, 'busy'), 'BlockingIO3': lambda: BlockingIOError(11, 'would block', 7),
+    'OSError5': lambda: OSError(13, 'denied', '/a', None, '/b'),
     'ULocked': lambda: ULocked('x', 2), 'UShape': lambda: UShape(3, 4), 'TypeErrorNonStringArg': lambda: TypeError(42), 'TypeErrorNoArgs': lambda: TypeError(),
     'TypeErrorBytesArg': lambda: TypeError(b'argument'), 'UHolder': lambda: UHolder('held'), 'UHolderCopyable': lambda: UHolderCopyable('held'),
 }
